@@ -15,10 +15,20 @@ CFG = {
             "nested RestrictViews}; every fixed-width parser x {be,le} x buffer lengths 0,1,w-1,w,w+1,2w+1 x the same cursors x the same "
             "9 views; per random case one more ByteVecP request (length around the wrap point, a power of two, remaining, or uniform in "
             "0..2^64-1) and one integer parser on a random chain of 0-3 views; a panic of the real code is judged `bad panic`; "
-            "non-trivial = multi-byte parser with >=2 bytes of buffer or a non-zero cursor",
+            "REUSE sequences (`seq` cases: ONE parser object - ByteVecP of 0,1,2,3,5,8 bytes, every fixed-width parser x {be,le} - "
+            "applied 2-5 times, every buffer keeping its cursor between steps): (A) 2,3,4 back-to-back successes then the end of the "
+            "buffer, leftover 0,1,w-1 bytes, start cursor 0 / leftover, inside each of the 9 views; (B) one buffer of 2w+1 bytes "
+            "(plain and inside a view), every word of 2-3 (thorough 2-4) steps over {stay, rewind to 0, cursor w, last full window, "
+            "one byte past it, end} = successes and end-of-buffer failures in every order; (C) three different buffers (plain / "
+            "window of nested views / window one byte too short), every word of 2-3 (thorough 2-4) steps over {next of buffer 0,1,2, "
+            "rewind buffer 0, buffer 1 at cursor w}; (D) per random case one sequence of 2-4 steps of a random parser on 1-3 random "
+            "buffers in random chains of 0-2 views, each step at the buffer's cursor or a random one; every step is judged against "
+            "the spec window at its cursor (a wrong later step after a right first one is judged `bad reuse`); "
+            "non-trivial = multi-byte parser with >=2 bytes of buffer or a non-zero cursor; a sequence of >=2 uses of a parser other than UInt8P",
     "trusted_base": COMMON_TB + [
         "modelled, not verified: ParseBuffer::peek/incr_cursor_unsafe/set_cursor_unsafe/extract as list indexing on a whole buffer (views: C17)"],
-    "assumptions": ["the model is over a plain byte list; that a restricted view behaves like a copy of its window is C17's theorem; the correspondence run exercises every parser both on plain buffers and on restricted views inside a larger allocation (case kinds prefixed with v, or a fifth word @lead.trail/... for a chain of nested views)"],
+    "assumptions": ["the model is over a plain byte list; that a restricted view behaves like a copy of its window is C17's theorem; the correspondence run exercises every parser both on plain buffers and on restricted views inside a larger allocation (case kinds prefixed with v, or a fifth word @lead.trail/... for a chain of nested views)",
+                    "the model parsers are functions of (buffer, cursor): a parser object has no state, so the model of a reuse sequence is the map of the single-step model over the steps with the cursor of each buffer threaded; that the Rust parser objects carry no state from one parse() to the next is checked by the `seq` cases of the correspondence run, not proved"],
 }
 LEVEL = {
     "design_ref": "DESIGN.md 3.C19",
